@@ -940,6 +940,31 @@ func BigPageWorkloads(codecs []sut.Codec) []Workload {
 	return out
 }
 
+// Pow2PageWorkloads: flat3 with 8192 records in pages of 4096 rows, so that
+// every page of the required int64 column holds exactly 32 768 plain bytes
+// (the window size of the deflate and snappy decoders), followed by more
+// pages and columns.
+func Pow2PageWorkloads(codecs []sut.Codec) []Workload {
+	const n = 8192
+	recs := make([]refpq.Val, n)
+	for i := range recs {
+		b := refpq.Val{Null: true}
+		if i%7 == 0 {
+			b = refpq.Val{Leaf: fmt.Sprintf("s%d", i)}
+		}
+		cl := refpq.Val{}
+		if i%5 == 1 {
+			cl = refpq.Val{List: []refpq.Val{{Leaf: int32(i)}}}
+		}
+		recs[i] = refpq.Val{Group: []refpq.Val{{Leaf: int64(i)*2654435761 + 11}, b, cl}}
+	}
+	var out []Workload
+	for _, cd := range codecs {
+		out = append(out, Workload{fmt.Sprintf("flat3/%s/pow2page", cd), "flat3", recs, []int{n}, 4096, cd})
+	}
+	return out
+}
+
 // mapStrings rewrites every string leaf of a record.
 func mapStrings(root *refpq.Node, v refpq.Val, fn func(string) string) refpq.Val {
 	var inner func(n *refpq.Node, v refpq.Val) refpq.Val
